@@ -688,17 +688,19 @@ def oracle_C05(rs, n, ctx):
             gdiff = float(np.abs(ga - gb).max())
             if ok.any() and np.abs(ta * c - tb)[ok].max() > 1e-9 * max(np.abs(tb[ok]).max(), 1e-300) + 1e-12 * scale + 4 * gdiff:
                 R.violate("C05:length-interp", f"interpolated times do not scale with length ({np.abs(ta * c - tb)[ok].max():.3e})", rep)
-    # absolute-tolerance probe: a source 3*tol (in LENGTH units) off a grid line, for the tolerances people write by hand
-    # (1e-5 .. 1e-12), in two unit systems a factor 2^7 apart in either direction: a test of the form |x - line| < tol in
-    # the Python layer or a kernel puts the source on the line in one system and not in the other (powers of two: bit for bit)
-    for k_t, tol in enumerate([1e-5, 1e-6, 1e-8, 1e-10, 1e-12]):
+    # absolute-tolerance probe: a test of the form |x - line| < tol (tol in LENGTH units, the values people write by hand:
+    # 1e-5 .. 1e-8) in the Python layer or in a kernel puts a source on the grid line in one unit system and not in another.
+    # Two unit systems a factor 2^10 apart (exact): offset 300*tol seen from the small system is 0.29*tol, offset 0.3*tol
+    # seen from the large one is 307*tol.  Powers of two: the grids must agree bit for bit, up to the sentinel noise F10
+    # (absolute ~1e-9 in the smaller system, which is why tolerances below ~3e-9 cannot be told apart from it).
+    for k_t, tol in enumerate([1e-5, 1e-6, 1e-7, 1e-8]):
         nd = 2 + (k_t + n) % 2
         cells = (3, 4) if nd == 2 else (2, 3, 2)
         v = np.broadcast_to(np.array([1.0, 1.5, 2.5, 1.25][:cells[1]]).reshape((1, -1) + (1,) * (nd - 2)), cells).copy()
         d = (1.0,) * nd
         for o_r in ([0.0] * nd, [8.0] + [-2.0] * (nd - 1)):
-            src = np.array([o_r[a_] + (1.0 + 3.0 * tol if a_ == 1 else min(0.5 + a_, cells[a_] - 0.5)) for a_ in range(nd)])
-            for c in (2.0 ** -7, 2.0 ** 7):
+            for off, c in ((300.0 * tol, 2.0 ** -10), (0.3 * tol, 2.0 ** 10)):
+                src = np.array([o_r[a_] + (1.0 + off if a_ == 1 else min(0.5 + a_, cells[a_] - 0.5)) for a_ in range(nd)])
                 d2, o2, src2 = tuple(x * c for x in d), [x * c for x in o_r], src * c
                 if not np.array_equal((src2 - np.asarray(o2)) / c, src - np.asarray(o_r)):
                     continue
@@ -715,8 +717,8 @@ def oracle_C05(rs, n, ctx):
                     absd = float(np.abs(ga - gb).max())
                     rel = absd / max(float(np.abs(gb).max()), 1e-300)
                     noise = 64 * 1.4551915228366852e-11 * max(1.0, c)
-                    key = "C05:pow2-sentinel-noise" if (absd <= noise or rel <= 1e-9) else "C05:length-pow2"
-                    R.violate(key, f"power-of-two length scaling (c={c}) of a source {3 * tol:g} length units off a grid line: max rel diff {rel:.3e} (must be 0)", dict(rep, rel=rel))
+                    key = "C05:pow2-sentinel-noise" if absd <= noise else "C05:length-pow2"
+                    R.violate(key, f"power-of-two length scaling (c={c}) of a source {off:g} length units off a grid line: max rel diff {rel:.3e}, abs {absd:.3e} (must be 0)", dict(rep, rel=rel))
     return R
 
 
